@@ -206,6 +206,33 @@ pub fn outside_names(apex: &[u8]) -> Vec<WName> {
         out.insert(p.clone());
         out.insert(wire::child(b"zz", &p));
     }
+    // Label-boundary confusers: names whose wire form ends with the apex's
+    // wire form octet for octet although they are not below the apex — the
+    // apex's labels (length octets included) sit inside one longer label.
+    // E.g. apex `s.t.` (01 's' 01 't' 00): `x\001s.t.` (03 'x' 01 's' 01 't' 00).
+    if apex.len() > 1 {
+        let first_len = apex[0] as usize;
+        let rest = &apex[1 + first_len..];
+        for prefix in [&b"x"[..], &b"xx"[..], &[1u8][..]] {
+            let mut label = prefix.to_vec();
+            label.extend_from_slice(&apex[..1 + first_len]);
+            let confuser = wire::child(&label, rest);
+            for n in [confuser.clone(), wire::child(b"a", &confuser), wire::child(b"a", &wire::child(b"b", &confuser)), upper(&confuser)] {
+                if !wire::eq_or_subdomain(&n, apex) {
+                    out.insert(n);
+                }
+            }
+        }
+        // and the whole apex (all labels) folded into one label below the root
+        let mut label = b"y".to_vec();
+        label.extend_from_slice(&apex[..apex.len() - 1]);
+        if label.len() <= 63 {
+            let n = wire::child(&label, &[0]);
+            if !wire::eq_or_subdomain(&n, apex) {
+                out.insert(n);
+            }
+        }
+    }
     out.into_iter().collect()
 }
 
